@@ -300,13 +300,16 @@ def gen_schedule(rng, n, counter=[0]):
             irr = IrrigationManagement(method)
         full = (k % 8 == 0)
         set_mode(not full)
+        pre_sched = None
         if method == 3 and rng.random() < 0.35:
             # PREHISTORY: the same IrrigationManagement object was used before, over the same window, with ANOTHER schedule;
             # the user then assigns the schedule compared here.  The binding must be a function of the object's current
             # content, not of its past (a per-object cache keyed on the window would survive this).
             try:
                 od = sorted(set(rng.randint(s - 2, e + 2) for _ in range(rng.randint(1, 4))))
-                irr.Schedule = pd.DataFrame({"Date": pd.DatetimeIndex([ts_of(d) for d in od]), "Depth": np.array([float(rng.choice([7, 12, 33])) for _ in od])})
+                ov = [float(rng.choice([7, 12, 33])) for _ in od]
+                pre_sched = [[ds(d) for d in od], ov]
+                irr.Schedule = pd.DataFrame({"Date": pd.DatetimeIndex([ts_of(d) for d in od]), "Depth": np.array(ov)})
                 m0 = make_model(s, e, good_weather(s, e), irrigation_management=irr); m0._initialize()
             except Exception:
                 pass
@@ -348,7 +351,7 @@ def gen_schedule(rng, n, counter=[0]):
         line = "%d %d %d %d %s" % (method, s, e, len(dates), " ".join("%d %s" % (d, hx(x)) for d, x in zip(dates, depths)))
         yield Case("schedule", line.strip(), " ".join(exp).split() + extra,
                    {"method": method, "s": ds(s), "e": ds(e), "dates": [ds(d) for d in dates], "depths": depths, "form": form,
-                    "full": full}, "valid")
+                    "full": full, "prehistory": pre_sched}, "valid")
     set_mode(False)
 
 
@@ -386,11 +389,13 @@ def gen_gw(rng, n, counter=[0]):
         keep_d, keep_v = list(udates), list(uvals)
         full = (k % 8 == 0)
         set_mode(not full)
+        pre_gw = None
         if present and rng.random() < 0.3:
             # PREHISTORY: the same GroundWater object was used before over the same window with OTHER observations
             try:
                 od = sorted(set(rng.randint(s - 3, e + 3) for _ in range(rng.randint(1, 3))))
                 gw.dates = [ds(d) for d in od]; gw.values = [rng.uniform(0.4, 5) for _ in od]
+                pre_gw = [list(gw.dates), list(gw.values)]
                 m0 = make_model(s, e, good_weather(s, e), groundwater=gw); m0._initialize()
             except Exception:
                 pass
@@ -442,7 +447,7 @@ def gen_gw(rng, n, counter=[0]):
         line = "%s %d %d %d %d %s" % (tb(present), mcode, s, e, len(dates), " ".join("%d %s" % (d, hx(v)) for d, v in zip(dates, vals)))
         yield Case("gw", line.strip(), exp + extra,
                    {"present": present, "method": method, "s": ds(s), "e": ds(e), "dates": [ds(d) for d in dates], "values": vals,
-                    "full": full}, "valid")
+                    "full": full, "prehistory": pre_gw}, "valid")
     set_mode(False)
 
 
